@@ -16,10 +16,17 @@
 #include <functional>
 
 
+#ifdef OVM_VERIF
+struct OVMVerifAccess; // verification harness access (no behaviour change; compiled only with -DOVM_VERIF)
+#endif
+
 namespace OpenVolumeMesh::IO::detail {
 
 class OVM_EXPORT BinaryFileReader
 {
+#ifdef OVM_VERIF
+    friend struct ::OVMVerifAccess;
+#endif
 public:
     BinaryFileReader(std::istream &_s,
                      ReadOptions const& _options,
